@@ -70,9 +70,11 @@ def make(fam, tmpl, opname, attr=None):
         allowed = {}
         for a in (op.args if op is not None else []):
             mutable_ids(a, allowed)
-        if tmpl == "K5":
+        if tmpl == "K5" and opname != "with_big_item":  # (an element helper on the attribute itself necessarily builds a new list)
             check(r.big is o.big, "do_not_copy attributes are carried into every copy by identity and never duplicated", f"{tag}/do-not-copy-duplicated")
             allowed[id(o.big)] = o.big
+        elif tmpl == "K5":
+            check(r.big is not o.big, "an element helper without _inplace edits a copy of the collection", f"{tag}/receiver-collection-edited")
         shared = [v for k_, v in ids_r.items() if k_ in ids_o and k_ not in allowed]
         check(not shared, "the result shares no mutable object with the instance it was derived from (arguments and do_not_copy attributes excepted)", f"{tag}/shared-mutable", lambda: f"{op.name if op else 'deepcopy'}: shared {[type(s).__name__ for s in shared]} {shared!r}")
         # follow-up in-place mutation of one side is invisible through the other
@@ -110,6 +112,11 @@ def make_inherit(fam, kind):
     @spec_class(do_not_copy=["payload"], bootstrap=bootstrap)
     class Derived(Base):  # do_not_copy declared in the subclass for an INHERITED, not re-annotated attribute
         tag: str = "t"
+
+    from vf.snapshot import register
+
+    register(Base, ["x", "ys", "payload"])
+    register(Derived, ["x", "ys", "payload", "tag"])
 
     def h(v: int, pre: int, op: int, side: bool, mut: int) -> str:
         cls = PlainSub if kind == "plain-override" else Derived
